@@ -1,0 +1,5 @@
+//go:build !verif
+
+package provider
+
+func verifPoint(string, string) {}
